@@ -87,7 +87,7 @@ def strategy_(draw, thorough):
             cols.append(next(it))
     nf["cols"] = cols
     return {"frame": fr0, "opts": opts, "partition_on": pn, "new": nf, "kind": kind,
-            "channel": draw(st.sampled_from(["append", "append", "append", "handle_append", "fresh_next_to", "overwrite"])),
+            "channel": draw(st.sampled_from(["append", "append", "append", "handle_append", "handle_append", "fresh_next_to", "overwrite"])),
             "colpos": draw(st.sampled_from(["first", "middle", "last"])), "rowpos": draw(st.sampled_from(["first_rg", "later_rg"])),
             "new_rgo": draw(st.sampled_from([None, 1, 2]))}
 
